@@ -12,7 +12,7 @@ from concurrent.futures import ThreadPoolExecutor
 
 ROOT = '/verif'
 sys.path.insert(0, ROOT + '/tools')
-import gen, pyref, tracecmp, oracles, coqcases   # noqa: E402
+import gen, pyref, tracecmp, oracles, coqcases, srcmap   # noqa: E402
 
 BUILD = ROOT + '/build'
 COQ = ROOT + '/coq'
@@ -676,11 +676,14 @@ def corpus_for(prop):
     return out
 
 
-def make_histories(prop, tier, seed):
+def make_histories(prop, tier, seed, boost=1):
     spec = PROPS[prop]
     fams = [f for f in spec['fams'] if f in gen.FAMILIES]
     count = max(1500, PER_FAMILY[tier] * len(fams)) if tier == 'quick' else PER_FAMILY[tier] * max(3, len(fams))
     hs = [(h.family, h.text()) for h in gen.generate(seed, fams, count)]
+    # the source is not the one the model was aligned with (tools/srcmap.py): further seeds through the whole pipeline
+    for extra in range(1, boost):
+        hs += [(h.family, h.text()) for h in gen.generate(seed + 104729 * extra, fams, count)]
     if prop == 'C11':
         hs += [('suffix_exhaustive', h.text()) for h in gen.suffix_exhaustive(seed, ns=(4, 5, 8) if tier == 'quick' else (4, 5, 8, 9, 17, 33))]
     if prop in SMALL_SCOPE_PROPS:
@@ -726,7 +729,18 @@ def check(prop, tier, seed):
     okh, outh = build_harness()
     if not okm:
         log('model driver build failed:\n' + outm[-2000:])
-    texts = make_histories(prop, tier, seed)
+    # function-level alignment of the model with the source (tools/srcmap.py). Never an alarm by itself; when the
+    # source differs from the one the model was aligned with, the quick tier runs three times the histories.
+    try:
+        align = srcmap.status(REPO)
+    except Exception as e:
+        align = dict(error=repr(e), changed=[], removed=[], added=[])
+    src_changed = bool(align.get('changed') or align.get('removed') or align.get('added'))
+    boost = 3 if (src_changed and tier == 'quick') else 1
+    if src_changed:
+        log('source differs from the one the model was aligned with: changed %s removed %s added %s -> %dx histories' % (
+            align.get('changed'), align.get('removed'), align.get('added'), boost))
+    texts = make_histories(prop, tier, seed, boost)
     fam_of = [f for f, _ in texts]
     hs = [t for _, t in texts]
     impl = model = None
@@ -746,7 +760,7 @@ def check(prop, tier, seed):
         order = [i for i in order if impl[i] is not None][:400]
         os.makedirs(WORK, exist_ok=True)
         kc_n, kc_idx = coqcases.write_cases([hs[i] for i in order], [impl[i] for i in order], WORK + '/cases.v',
-                                            limit=KERNEL_CASES[tier], relevant=lambda o: spec['filt']('R', o))
+                                            limit=KERNEL_CASES[tier] * (2 if boost > 1 else 1), relevant=lambda o: spec['filt']('R', o))
         kc_idx = [order[j] for j in kc_idx]
         kc_pool = ThreadPoolExecutor(max_workers=1)
         kc_future = kc_pool.submit(coqcases.run_cases, WORK + '/cases.v') if kc_n else None
@@ -932,6 +946,10 @@ def check(prop, tier, seed):
             families=dist,
             model_branch_coverage=cov,
             correspondence_views=spec['views'],
+            model_alignment=dict(align, note='function-level fingerprints of /repo/src against coq/SRCMAP.json (the source the hand-written '
+                                            'model mirrors, function by function); `changed`/`removed`/`added` list what differs now; '
+                                            'a difference is not a violation, it triples the histories of the quick tier'),
+            history_boost=boost,
             kernel_evaluated_cases=kc.get('cases', 0) if okh and okm else 0,
             kernel_evaluated_agree=(kc.get('ok') if okh and okm else None),
             correspondence_differences=len(corr),
